@@ -424,8 +424,33 @@ def after_measure_cells(tier: str, seed: int):
                         elif sv.endswith(".f") and sv not in measured:
                             steps.append({"kind": "op", "entry": "self", "fam": "Fock", "type": "PhaseShift", "params": {"phi": 0.3}, "targets": [R(sv)]})
                         break
-                    cells.append(_cell(spec, tag, ltag, cls, bool(n % 2), seed, {"kind": "seq", "steps": steps, "targets": [R(t) for t in tg], "entry": entry},
+                    cells.append(_cell(spec, tag, ltag, cls, bool(n % 2), seed, {"kind": "seq", "steps": steps, "targets": [R(t) for t in tg], "entry": entry, "usable_prop": "C05"},
                                        flags=_flagtag(flags), variant="after-measure"))
+    # a stand-alone envelope (no composite envelope), combined at envelope level: after a non-destructive measurement every
+    # envelope-level request (generalised measurement, channel, operation, measurement; one or both members) still works
+    for order, tag in ((["e0.f", "e0.p"], "envalone01"), (["e0.p", "e0.f"], "envalone10")):
+        for lv, cls in (("V", "pure"), ("M", "mixed"), ("M", "nearpure")):
+            for entry, tg in (("env", ["e0.f"]), ("self", ["e0.p"]), ("self", ["e0.f"])):
+                spec = LY.make_spec([("env", order)], {order[0]: lv}, {order[0]: cls}, envs=("e0",), customs=(), composite=False, fock_dims={"e0": 3})
+                R = lambda m: LY.rename(spec, m)
+                first = {"kind": "measure", "entry": entry, "targets": [R(t) for t in tg], "flags": {"destructive": False}}
+                conts = [
+                    [{"kind": "povm", "entry": "env", "targets": [R("e0.f"), R("e0.p")], "ops": {"n": 2, "seed": 5, "projective": True}, "flags": {"destructive": False}}],
+                    [{"kind": "povm", "entry": "env", "targets": [R("e0.p"), R("e0.f")], "ops": {"n": 3, "seed": 4, "projective": False}, "flags": {"destructive": False}}],
+                    [{"kind": "povm", "entry": "env", "targets": [R("e0.p")], "ops": {"n": 2, "seed": 3, "projective": False}, "flags": {"destructive": False}}],
+                    [{"kind": "kraus", "entry": "env", "targets": [R("e0.f"), R("e0.p")], "ops": {"name": "random2", "seed": 8}}],
+                    [{"kind": "kraus", "entry": "env", "targets": [R("e0.p")], "ops": {"name": "dephasing", "seed": 8}}],
+                    [dict(X, entry="env", targets=[R("e0.p")]), {"kind": "measure", "entry": "env", "targets": [R("e0.p")], "flags": {"destructive": False}}],
+                    [{"kind": "op", "entry": "env", "fam": "Fock", "type": "PhaseShift", "params": {"phi": 0.3}, "targets": [R("e0.f")]},
+                     {"kind": "measure", "entry": "env", "targets": [R("e0.f")], "flags": {}}],
+                ]
+                for ci, cont in enumerate(conts):
+                    n += 1
+                    steps = [first,
+                             {"kind": "measure", "entry": "self", "targets": [R("e0.f")], "flags": {"destructive": False, "separate_measurement": True}},
+                             {"kind": "measure", "entry": "self", "targets": [R("e0.p")], "flags": {"destructive": False, "separate_measurement": True}}] + cont
+                    cells.append(_cell(spec, tag, lv, cls, bool(n % 2), seed, {"kind": "seq", "steps": steps, "targets": [R(t) for t in tg], "entry": entry, "usable_prop": "C05"},
+                                       flags="destructive=False", variant=f"after-measure-standalone{ci}"))
     return cells
 
 
@@ -450,6 +475,7 @@ def invalid_cells(tier: str, seed: int):
                             plans.append(("custom-operator-wrong-size", entry, [t], {}))
                         if entry != "self":
                             plans.append(("wrong-kind-of-subsystem", entry, [t], {}))
+                            plans.append(("wrong-kind-with-used-operation", entry, [t], {}))
                 plans += [("kraus-wrong-size", "ce", ["e0.p", "e1.p"], {}), ("kraus-not-trace-preserving", "env", ["e0.f", "e0.p"], {}),
                           ("povm-wrong-size", "ce", ["e1.p", "e0.f"], {}), ("duplicate-kraus-targets", "ce", ["e0.p"], {}),
                           ("shrink-below-occupied-levels", "self", ["e0.f"], {"new": 1}), ("shrink-below-occupied-levels", "env", ["e0.f"], {"new": 1}),
@@ -457,7 +483,7 @@ def invalid_cells(tier: str, seed: int):
                           ("shrink-below-occupied-levels", "ce", ["e1.f"], {"new": -3})]
                 for what, entry, tg, extra in plans:
                     n += 1
-                    if quick and n % 5 != 0:
+                    if quick and n % 5 != 0 and not (what == "wrong-kind-with-used-operation" and n % 2 == 0):
                         continue
                     if what == "shrink-below-occupied-levels" and cls == "basis":
                         continue
@@ -465,7 +491,8 @@ def invalid_cells(tier: str, seed: int):
                         cls_used = {"pure": "ghz", "mixed": "classical"}.get(cls, cls) if n % 2 else cls
                     else:
                         cls_used = cls
-                    spec = LY.make_spec(blocks, levels, {}, default_level=dl, default_cls=cls_used, bystander=(n % 7 == 0))
+                    spec = LY.make_spec(blocks, levels, {}, default_level=dl, default_cls=cls_used, bystander=(n % 7 == 0),
+                                        fock_dims=({"e0": 2} if what == "wrong-kind-with-used-operation" else None))
                     a = {"kind": "invalid", "what": what, "entry": entry, "targets": [LY.rename(spec, t) for t in tg],
                          "then": [dict(CONT[tg[0]], targets=[LY.rename(spec, tg[0])])] if tg[0] in CONT else [], **extra}
                     cells.append(_cell(spec, tag, ltag, cls, bool(n % 2), seed, a, variant=what, ntargets=len(tg),
